@@ -246,7 +246,9 @@ package runtime
 //@ ensures [C16:readerror] calls(RA) == 1 && ret(RA,0,1) != nil ==> result == ret(RA,0,1) && calls(WA) == 0
 //@ ensures [C16:written] calls(RA) == 1 && ret(RA,0,1) == nil ==> calls(WA) == 1 && arg(WA,0,0) == csvWriter && arg(WA,0,1) == ret(RA,0,0) && result == ret(WA,0,0)
 //@ ensures [C16:skiperror] calls(RA) == 0 ==> calls(WA) == 0 && calls(RD) > 0 && ret(RD,calls(RD)-1,1) != nil
-//@ loop 0 invariant calls(RA) == 0 && calls(WA) == 0 && calls(RD) >= 0
+// running out of input while skipping is not an error (nothing to deliver); any other read error is returned
+//@ ensures [C16:skipeof] calls(RA) == 0 ==> calls(IS) == 1 && arg(IS,0,0) == ret(RD,calls(RD)-1,1) && (ret(IS,0,0) ==> result == nil) && (!ret(IS,0,0) ==> result == ret(RD,calls(RD)-1,1))
+//@ loop 0 invariant calls(RA) == 0 && calls(WA) == 0 && calls(RD) >= 0 && calls(IS) == 0
 //@ loop 0 invariant opts0.skippedLines > 0 ==> opts.skippedLines >= 0 && calls(RD) == opts0.skippedLines - opts.skippedLines
 //@ loop 0 invariant opts0.skippedLines <= 0 ==> calls(RD) == 0 && opts.skippedLines == opts0.skippedLines
 //@ loop 0 invariant forall n int :: called(RD,n) ==> arg(RD,n,0) == csvReader && ret(RD,n,1) == nil
